@@ -40,7 +40,7 @@ type Program struct {
 	inModule map[*ssa.Function]bool
 	// alias: (pkg, receiver, current base name) -> the name the function had in the reference snapshot.
 	// A function that was only renamed keeps its identity in every key and anchor.
-	alias   map[string]string
+	alias   map[string]FuncSig
 	Renames []string
 }
 
@@ -115,7 +115,7 @@ func (p *Program) Snapshot() []FuncSig {
 // snapshot but not in the tree, and a function that is in the tree but not in the snapshot, are the same
 // function renamed when they share package, receiver and signature and the pairing is unambiguous.
 func (p *Program) detectRenames() {
-	p.alias = map[string]string{}
+	p.alias = map[string]FuncSig{}
 	if SnapshotPath == "" {
 		return
 	}
@@ -148,11 +148,78 @@ func (p *Program) detectRenames() {
 			fresh[group(f)] = append(fresh[group(f)], f)
 		}
 	}
+	paired := map[string]bool{}
 	for g, olds := range gone {
 		news := fresh[g]
 		if len(olds) == 1 && len(news) == 1 {
-			p.alias[key(news[0])] = olds[0].Name
+			p.alias[key(news[0])] = olds[0]
+			paired[key(news[0])], paired[key(olds[0])] = true, true
 			p.Renames = append(p.Renames, fmt.Sprintf("%s.%s%s is %s of the reference tree, renamed", news[0].Pkg, news[0].Recv, news[0].Name, olds[0].Name))
+		}
+	}
+	// second pass: a function turned into a method (or the reverse), possibly with its parameters reordered:
+	// same package, same multiset of receiver and parameter types, same results
+	bag := func(f FuncSig) string {
+		sig := f.Sig
+		i := strings.Index(sig, "(")
+		depth, j := 0, i
+		for ; j < len(sig); j++ {
+			if sig[j] == '(' {
+				depth++
+			} else if sig[j] == ')' {
+				depth--
+				if depth == 0 {
+					break
+				}
+			}
+		}
+		if i < 0 || j >= len(sig) {
+			return ""
+		}
+		var parts []string
+		cur, d := "", 0
+		for _, ch := range sig[i+1 : j] {
+			switch {
+			case ch == ',' && d == 0:
+				parts = append(parts, strings.TrimSpace(cur))
+				cur = ""
+				continue
+			case ch == '(' || ch == '[' || ch == '{':
+				d++
+			case ch == ')' || ch == ']' || ch == '}':
+				d--
+			}
+			cur += string(ch)
+		}
+		if strings.TrimSpace(cur) != "" {
+			parts = append(parts, strings.TrimSpace(cur))
+		}
+		if f.Recv != "" {
+			parts = append(parts, f.Recv)
+		}
+		sort.Strings(parts)
+		return f.Pkg + "\x00" + strings.Join(parts, "|") + "\x00" + sig[j+1:]
+	}
+	gone2, fresh2 := map[string][]FuncSig{}, map[string][]FuncSig{}
+	for _, fs := range gone {
+		for _, f := range fs {
+			if !paired[key(f)] && bag(f) != "" {
+				gone2[bag(f)] = append(gone2[bag(f)], f)
+			}
+		}
+	}
+	for _, fs := range fresh {
+		for _, f := range fs {
+			if !paired[key(f)] && bag(f) != "" {
+				fresh2[bag(f)] = append(fresh2[bag(f)], f)
+			}
+		}
+	}
+	for g, olds := range gone2 {
+		news := fresh2[g]
+		if len(olds) == 1 && len(news) == 1 {
+			p.alias[key(news[0])] = olds[0]
+			p.Renames = append(p.Renames, fmt.Sprintf("%s.%s%s is %s%s of the reference tree (function/method form or parameter order changed)", news[0].Pkg, news[0].Recv, news[0].Name, olds[0].Recv, olds[0].Name))
 		}
 	}
 	sort.Strings(p.Renames)
@@ -340,11 +407,14 @@ func (p *Program) FuncID(f *ssa.Function) string {
 	if o := f.Origin(); o != nil {
 		base = o.Name()
 	}
+	var oldSig *FuncSig
 	if len(p.alias) > 0 {
 		if fs, ok := p.sigOf(f); ok {
 			if old, ok := p.alias[fs.Pkg+"\x00"+fs.Recv+"\x00"+fs.Name]; ok {
-				base = old
-				name = old
+				base = old.Name
+				name = old.Name
+				o := old
+				oldSig = &o
 			}
 		}
 	}
@@ -354,6 +424,24 @@ func (p *Program) FuncID(f *ssa.Function) string {
 			ta = append(ta, types.TypeString(t, func(pk *types.Package) string { return pk.Name() }))
 		}
 		name = base + "[" + strings.Join(ta, ",") + "]"
+	}
+	if oldSig != nil {
+		// the identity of the reference tree, in the same notation
+		if oldSig.Recv == "" {
+			return rel + "." + name
+		}
+		r := oldSig.Recv
+		ptr := ""
+		if strings.HasPrefix(r, "*") {
+			ptr, r = "*", r[1:]
+		}
+		if i := strings.Index(r, "["); i >= 0 {
+			r = r[:i]
+		}
+		if i := strings.LastIndex(r, "."); i >= 0 {
+			r = r[i+1:]
+		}
+		return fmt.Sprintf("%s.(%s%s).%s", rel, ptr, r, name)
 	}
 	if recv := f.Signature.Recv(); recv != nil {
 		rt := recv.Type()
